@@ -579,16 +579,17 @@ end opshift
     (the generator itself is C19) -/
 theorem c06_seed_pure : ∀ s ∈ Gen.RandSites.sites, s.2.1 = false ∧ (s.2.2 = "0" ∨ s.2.2 = "seed + 123 * iter") := by decide
 
-/-- no variable with static storage anywhere in the library, and the `mutable` data members are exactly the scratch caches of the
+/-- no variable with static storage anywhere in the library — not even a `const` one (a function-local `static const` with a
+    run-time initialiser is frozen to the values of the FIRST object that reaches it: hidden state across solvers) —, and the `mutable` data members are exactly the scratch caches of the
     operator adaptors (each is assigned in full before it is read inside one `perform_op`/`inner_product` call) and the CG status
     of `SparseRegularInverse`: a new `mutable` member (a call counter, a cached vector) changes the regenerated list and breaks this -/
 theorem c06_no_hidden_state :
-    Gen.Footprint.statics = [] ∧
+    Gen.Footprint.statics = [] ∧ Gen.Footprint.const_statics = [] ∧
     Gen.Footprint.mutable_members = [("ArnoldiOp", "m_cache"), ("DenseGenComplexShiftSolve", "m_x_cache"), ("SVDTallMatOp", "m_cache"),
       ("SVDWideMatOp", "m_cache"), ("SparseGenComplexShiftSolve", "m_x_cache"), ("SparseRegularInverse", "m_info"),
       ("SymGEigsBucklingOp", "m_cache"), ("SymGEigsCayleyOp", "m_cache"), ("SymGEigsCholeskyOp", "m_cache"),
       ("SymGEigsRegInvOp", "m_cache"), ("SymGEigsShiftInvertOp", "m_cache")] := by
-  constructor <;> rfl
+  refine ⟨rfl, rfl, rfl⟩
 
 /-- **Nothing but the operator and the matrix is held by reference.**  `Gen.Footprint.handle_members` lists, for EVERY class of
     the library (regenerated from the clang AST on every run), each data member that does not own its value: raw references and
